@@ -11,6 +11,7 @@ properties and performs the negative controls.
 """
 import concurrent.futures
 import copy
+import hashlib
 import json
 import os
 import shutil
@@ -34,7 +35,7 @@ ASSUME_SCOPE = ("bounded program space: sends with <= 3 sources / <= 3 destinati
                 "families E1..E5, X and seeded sampling (TLC RandomElement, -seed from VERIF_SEED) of the larger space")
 ASSUME_SPEC = ("spec/Numscript.tla models the machine runtime at funding level as read from internal/machine "
                "(drain order, zero-amount parts, merge of adjacent parts, kept funds returned to the front); "
-               "`save`, `print`, `fail`, meta() variables and arithmetic expressions are not modelled")
+               "`print`, `fail`, meta() variables and arithmetic expressions are not modelled")
 ASSUME_STORE = ("the balance store is a stub answering GetBalances with the enumerated balances (what the real "
                 "store guarantees: every queried pair is returned); no Postgres involved")
 
@@ -66,15 +67,15 @@ def _diag(module, cfg, seed):
     d = cfg.replace(".cfg", "_diag.cfg")
     if not os.path.exists(os.path.join(vlib.SPEC, d)):
         return ""
-    r = vlib.tlc(module, d, workers=2, timeout=1200, deadlock=False, seed=seed)
+    r = vlib.tlc(module, d, workers=2, timeout=1200, deadlock=False, seed=seed, heap="3g")
     names = [n for (_, n) in r.violations]
     i = r.out.find("Error:")
     return "theorem(s) failing: %s\n%s" % (names, r.out[i:i + 2500] if i >= 0 else "")
 
 
 def _run_tlc_job(job):
-    module, cfg, seed, label, timeout, extra = job
-    r = vlib.tlc(module, cfg, workers=2, timeout=timeout, deadlock=False, seed=seed, extra_files=extra)
+    module, cfg, seed, label, timeout, extra, out_file = job
+    r = vlib.tlc(module, cfg, workers=1, timeout=timeout, deadlock=False, seed=seed, extra_files=extra, heap="3g")
     lines = []
     for line in r.out.splitlines():
         line = line.strip()
@@ -84,24 +85,32 @@ def _run_tlc_job(job):
             except Exception:
                 continue
             lines.append(json.dumps(obj, sort_keys=True, separators=(",", ":")))
-    out = r.out
+    tail = r.out[-3000:]
     r.out = ""      # the raw output can be hundreds of MB
-    return label, r, lines, out[-3000:]
+    lines.sort()    # TLC's print order is irrelevant; the case file is deterministic
+    with open(out_file, "w") as fh:
+        for l in lines:
+            fh.write(l + "\n")
+    return label, r, len(lines), tail
 
 
 def run_tlc_jobs(ctx, jobs, out_path, max_parallel=8):
     """jobs: (module, cfg, seed, label, timeout, extra_files). Cases are written to out_path in job
-    order, sorted inside a job (TLC's print order is irrelevant). Returns the number of cases."""
+    order, sorted inside a job. Several JVMs run in parallel (TLC evaluates initial states, i.e. all
+    the work here, on one thread). Returns the number of cases."""
     c = ctx.c
+    # JVMs in parallel: keep each one's GC from spawning one thread per core
+    os.environ.setdefault("JDK_JAVA_OPTIONS", "-XX:ParallelGCThreads=2")
     results = {}
+    jobs2 = [tuple(j) + (ctx.path("part-%d.ndjson" % i),) for i, j in enumerate(jobs)]
     with concurrent.futures.ThreadPoolExecutor(max_workers=max_parallel) as ex:
-        for label, r, lines, tail in ex.map(_run_tlc_job, jobs):
-            results[label] = (r, lines, tail)
+        for label, r, n, tail in ex.map(_run_tlc_job, jobs2):
+            results[label] = (r, n, tail)
     total = 0
     with open(out_path, "w") as fh:
-        for job in jobs:
+        for job in jobs2:
             label = job[3]
-            r, lines, tail = results[label]
+            r, n, tail = results[label]
             c.add_tlc(r, label)
             if not r.ok:
                 why = ""
@@ -109,14 +118,14 @@ def run_tlc_jobs(ctx, jobs, out_path, max_parallel=8):
                     why = _diag(job[0], job[1], job[2])
                 raise vlib.Inconclusive("TLC run %s failed on the specification alone (spec bug, never a verdict about "
                                         "the code): %s %s\n%s\n%s" % (label, r.violations, r.error, why, tail[-1500:]))
-            if len(lines) != r.distinct:
+            if n != r.distinct:
                 raise vlib.Inconclusive("TLC run %s: %d CASE lines parsed but %d distinct states (lost output)" %
-                                        (label, len(lines), r.distinct))
-            lines.sort()
-            for l in lines:
-                fh.write(l + "\n")
-            total += len(lines)
-            vlib.log("[tlc] %-22s %7d cases  %6.1fs" % (label, len(lines), r.wall))
+                                        (label, n, r.distinct))
+            with open(job[6]) as part:
+                shutil.copyfileobj(part, fh)
+            os.remove(job[6])
+            total += n
+            vlib.log("[tlc] %-22s %7d cases  %6.1fs" % (label, n, r.wall))
     return total
 
 
@@ -134,9 +143,44 @@ def program_jobs(ctx, families=None, with_random=True):
     return jobs
 
 
+def _spec_digest():
+    h = hashlib.sha1()
+    for f in sorted(os.listdir(vlib.SPEC)):
+        if f.startswith(("Numscript", "MC_Numscript")):
+            h.update(f.encode())
+            h.update(open(os.path.join(vlib.SPEC, f), "rb").read())
+    return h.hexdigest()[:16]
+
+
+def _cached(ctx, key, produce, out_path):
+    """Development aid, off unless VERIF_NUMSCRIPT_CACHE names a directory: re-use the case file TLC
+    printed for the same spec/tier/seed (the sibling checks C22/C23/C26/C27 use the same stream).
+    Registered runs do not set it: every run then performs its own TLC runs."""
+    d = os.environ.get("VERIF_NUMSCRIPT_CACHE")
+    if not d:
+        return produce()
+    os.makedirs(d, exist_ok=True)
+    f, meta = os.path.join(d, key + ".ndjson"), os.path.join(d, key + ".json")
+    if os.path.exists(f) and os.path.exists(meta):
+        m = json.load(open(meta))
+        shutil.copyfile(f, out_path)
+        for run in m["tlc_runs"]:
+            ctx.c.add("states", run["distinct"])
+            ctx.c.add("transitions", run["generated"])
+            ctx.c.cov.setdefault("tlc_runs", []).append(run)
+        ctx.c.note("case file re-used from VERIF_NUMSCRIPT_CACHE (TLC runs of an earlier check of this session)")
+        return m["n"]
+    before = len(ctx.c.cov.get("tlc_runs", []))
+    n = produce()
+    shutil.copyfile(out_path, f)
+    json.dump({"n": n, "tlc_runs": ctx.c.cov.get("tlc_runs", [])[before:]}, open(meta, "w"))
+    return n
+
+
 def generate_program_cases(ctx, families=None, with_random=True, name="cases.ndjson"):
     path = ctx.path(name)
-    n = run_tlc_jobs(ctx, program_jobs(ctx, families, with_random), path)
+    key = "prog-%s-%s-%d-%s-%s" % (_spec_digest(), ctx.tier, ctx.seed, "".join(families or FAMILIES), int(with_random))
+    n = _cached(ctx, key, lambda: run_tlc_jobs(ctx, program_jobs(ctx, families, with_random), path), path)
     ctx.c.set("cases_generated", n)
     return path, n
 
